@@ -13,6 +13,7 @@ import (
 	"path/filepath"
 	"strings"
 	"sync"
+	"syscall"
 	"sync/atomic"
 	"time"
 
@@ -28,6 +29,8 @@ type lcProcRunner struct {
 	stdout             io.ReadCloser
 	stderr             io.ReadCloser
 	kills              int32
+	failAfterLaunch    bool // Start reports an error after the process has been created
+	waitOnce           sync.Once
 }
 
 func newLcProcRunner(cmd *exec.Cmd) (*lcProcRunner, error) {
@@ -42,7 +45,21 @@ func newLcProcRunner(cmd *exec.Cmd) (*lcProcRunner, error) {
 	return &lcProcRunner{cmd: cmd, stdout: so, stderr: se}, nil
 }
 
-func (r *lcProcRunner) Start(ctx context.Context) error     { return r.cmd.Start() }
+func (r *lcProcRunner) Start(ctx context.Context) error {
+	if err := r.cmd.Start(); err != nil {
+		return err
+	}
+	if r.failAfterLaunch {
+		// a runner that creates its workload and then waits for it to become ready: the wait is given up when the start
+		// context ends, the workload is left for Kill ("Kill should stop the plugin and perform any cleanup required")
+		select {
+		case <-ctx.Done():
+		case <-time.After(150 * time.Millisecond):
+		}
+		return fmt.Errorf("readiness probe failed")
+	}
+	return nil
+}
 func (r *lcProcRunner) Diagnose(ctx context.Context) string { return "" }
 func (r *lcProcRunner) Stdout() io.ReadCloser               { return r.stdout }
 func (r *lcProcRunner) Stderr() io.ReadCloser               { return r.stderr }
@@ -52,6 +69,9 @@ func (r *lcProcRunner) Kill(ctx context.Context) error {
 	atomic.AddInt32(&r.kills, 1)
 	if r.cmd.Process != nil {
 		r.cmd.Process.Kill()
+		if r.failAfterLaunch {
+			r.waitOnce.Do(func() { r.cmd.Wait() }) // nobody else waits for a workload whose start was reported as failed
+		}
 	}
 	return nil
 }
@@ -141,8 +161,14 @@ func runC05Real(cause c05Cause, launch string, idx int) (caseLine, impl, pred st
 	base := filepath.Join(work, fmt.Sprintf("c05-%d-%d", os.Getpid(), idx))
 	os.MkdirAll(base, 0o755)
 	defer os.RemoveAll(base)
-	caseLine = fmt.Sprintf("C05 launch=%s hs=0 ops=S,K cause=%s", map[string]string{"cmd": "cmd", "runner": "runner"}[launch], cause.name)
+	caseLine = fmt.Sprintf("C05 launch=%s hs=0 ops=S,K cause=%s", map[string]string{"cmd": "cmd", "cmdattr": "cmd", "runner": "runner"}[launch], cause.name)
 	cmd := kitCmd(cause.kit, "TMPDIR="+base)
+	if launch == "cmdattr" {
+		// the host configured process attributes of its own on the command (here the empty set: no new session or group)
+		caseLine += " attr=own"
+		cmd.SysProcAttr = &syscall.SysProcAttr{}
+		launch = "cmd"
+	}
 	cfg := &plugin.ClientConfig{
 		HandshakeConfig:     kitHandshake(),
 		VersionedPlugins:    kitHostSets(map[int]string{3: "netrpc"}, nil, nil),
@@ -247,7 +273,11 @@ func init() {
 			}
 			for i, c := range c05Causes() {
 				if c.name == m["cause"] {
-					cl, impl, pred := runC05Real(c, m["launch"], i)
+					l := m["launch"]
+					if m["attr"] == "own" {
+						l = "cmdattr"
+					}
+					cl, impl, pred := runC05Real(c, l, i)
 					o.emit(cl, impl, pred)
 				}
 			}
@@ -274,7 +304,7 @@ func init() {
 		causes := c05Causes()
 		type rr struct{ cl, impl, pred string }
 		var jobs []func() rr
-		for _, launch := range []string{"cmd", "runner"} {
+		for _, launch := range []string{"cmd", "runner", "cmdattr"} {
 			for i, c := range causes {
 				launch, c, i := launch, c, i
 				jobs = append(jobs, func() rr {
